@@ -80,6 +80,10 @@ SpellRefused  == {"ws_only", "empty", "prefix_0x", "odd", "non_ascii", "split_pa
 \* a document is a certificate (must load) iff its fields are readable and its targets reach the root
 Loadable(c, targets, spell) == spell \in SpellAccepted /\ WellFormed(c, targets)
 
+\* The root of trust is a KEY.  In which encoding it is handed over (04 X Y, or 02/03 X) is an environment
+\* choice that the reference semantics does not see: rk below is the key id, the same for every encoding.
+RootEncodings == {"uncompressed", "compressed"}
+
 \* Judging one observed verdict o = [valid, name, value] for target x; "" = agrees
 JudgeTarget(c, rk, x, o) ==
     IF ~HasPath(c, x)
